@@ -86,20 +86,25 @@ func Getenv(k string) string      { return os.Getenv(k) }
 func LookupEnv(k string) (string, bool) {
 	return os.LookupEnv(k)
 }
-func Setenv(k, v string) error   { return os.Setenv(k, v) }
-func Unsetenv(k string) error    { return os.Unsetenv(k) }
-func Environ() []string          { return os.Environ() }
-func TempDir() string            { return os.TempDir() }
-func Getpid() int                { return os.Getpid() }
-func Getwd() (string, error)     { return os.Getwd() }
-func Hostname() (string, error)  { return os.Hostname() }
+func Setenv(k, v string) error  { return os.Setenv(k, v) }
+func Unsetenv(k string) error   { return os.Unsetenv(k) }
+func Environ() []string         { return os.Environ() }
+func TempDir() string           { return os.TempDir() }
+func Getpid() int               { return os.Getpid() }
+func Getwd() (string, error)    { return os.Getwd() }
+func Hostname() (string, error) { return os.Hostname() }
 func UserHomeDir() (string, error) {
 	return os.UserHomeDir()
 }
-func Exit(code int)                { os.Exit(code) }
-func Executable() (string, error)  { return os.Executable() }
-func Getpagesize() int             { return os.Getpagesize() }
-func SameFile(a, b FileInfo) bool  { return os.SameFile(a, b) }
+func Exit(code int) {
+	if exitPanics.Load() {
+		panic(ExitCalled{Code: code})
+	}
+	os.Exit(code)
+}
+func Executable() (string, error) { return os.Executable() }
+func Getpagesize() int            { return os.Getpagesize() }
+func SameFile(a, b FileInfo) bool { return os.SameFile(a, b) }
 func Chmod(name string, m FileMode) error {
 	if f, _ := find(name); f != nil {
 		return nil
@@ -117,6 +122,18 @@ func MkdirTemp(dir, pattern string) (string, error) {
 	}
 	return os.MkdirTemp(dir, pattern)
 }
+
+// ExitCalled is the panic value raised by Exit while ExitPanics(true) is in force
+// (log.Crit of an instrumented log package becomes observable instead of killing
+// the test process).
+type ExitCalled struct{ Code int }
+
+func (e ExitCalled) Error() string { return fmt.Sprintf("os.Exit(%d) called (log.Crit)", e.Code) }
+
+var exitPanics atomic.Bool
+
+// ExitPanics switches Exit between terminating the process and panicking.
+func ExitPanics(on bool) { exitPanics.Store(on) }
 
 // ---------------------------------------------------------------------------
 // the virtual file system
